@@ -21,7 +21,7 @@ from llsym.solve import model_value
 PID = 'C13'
 C6 = ['x', 'y', 'z', 'vx', 'vy', 'vz']
 
-def setup(ctx, N, mode, symbolic=True, concrete_rand=True):
+def setup(ctx, N, mode, symbolic=True, concrete_rand=True, sep=None, xfixed=None, rfixed=None, rorder=None):
     dom = Real(); I = new_interp(dom, ctx); I.concrete_env = concrete_rand
     L = build.layout(); sim = Sim(I)
     for i in range(N): sim.add(m=1.0)
@@ -31,6 +31,36 @@ def setup(ctx, N, mode, symbolic=True, concrete_rand=True):
         for c in C6 + ['r', 'm']:
             V[(i, c)] = dom.fresh('%s%d' % (c, i)); sim.particle(i).set(c, V[(i, c)])
         ctx.assume(V[(i, 'r')] >= 0); ctx.assume(V[(i, 'm')] > 0)
+    if mode == 'TREE' and rfixed is not None:
+        from fractions import Fraction as _F2
+        for i in range(N): V[(i, 'r')] = z3.RealVal(_F2(rfixed[i])); sim.particle(i).set('r', _F2(rfixed[i]))
+    if mode == 'TREE':
+        # one root box of size 8; y and z concrete (distinct, off the cell boundaries), x symbolic inside the box with a minimum
+        # separation that bounds the depth of the tree
+        from fractions import Fraction as _F
+        I.loop_bound = 64
+        I.call('@reb_simulation_configure_box', [sim.ptr, _F(8), 1, 1, 1])
+        I.stubs['@reb_get_rootbox_for_particle'] = lambda I_, r, p: 0
+        for i in range(N):
+            for c, v in (('y', _F(1, 7) + _F(i, 16)), ('z', _F(1, 5))):
+                V[(i, c)] = z3.RealVal(v); sim.particle(i).set(c, v)
+            if xfixed is not None:
+                V[(i, 'x')] = z3.RealVal(_F(xfixed[i])); sim.particle(i).set('x', _F(xfixed[i]))          # concrete tree structure, symbolic radii and velocities
+                continue
+            ctx.assume(z3.And(V[(i, 'x')] > -4, V[(i, 'x')] < 4))
+            for j in range(i):
+                d_ = V[(i, 'x')] - V[(j, 'x')]; ctx.assume(z3.Or(d_ >= sep, -d_ >= sep))
+        for i in range(N): I.call('@reb_tree_add_particle_to_tree', [sim.ptr, i])
+        # reb_simulation_add maintains the largest and second largest radius (used by the tree search to prune): same update rule here
+        order = rorder if rorder is not None else list(range(N))
+        if rfixed is None and symbolic:
+            # radii ordered as given (one unit per ordering): r[order[0]] >= r[order[1]] >= ...  -> largest and second largest are plain symbols
+            for a_, b_ in zip(order, order[1:]): ctx.assume(V[(a_, 'r')] >= V[(b_, 'r')])
+            m0 = V[(order[0], 'r')]; m1 = V[(order[1], 'r')] if N > 1 else z3.RealVal(0)
+        else:
+            rs_ = sorted([V[(i, 'r')] for i in range(N)], key=lambda t: -float(t.as_fraction())) if rfixed is not None else [z3.RealVal(0)] * 2
+            m0 = rs_[0]; m1 = rs_[1] if N > 1 else z3.RealVal(0)
+        sim.set('max_radius0', z3.simplify(m0)); sim.set('max_radius1', z3.simplify(m1))
     rec = []
     def resolve(I_, r, c):
         cv = SimView(I_, c, 'reb_collision'); rec.append((cv.get('p1'), cv.get('p2'))); return 0
@@ -40,10 +70,10 @@ def setup(ctx, N, mode, symbolic=True, concrete_rand=True):
 
 def run_detect(u):
     rep = Report(); N, mode = u['N'], u['mode']
-    label = "detect %s N=%d " % (mode, N)
+    label = "detect %s N=%d%s " % (mode, N, (' x=%s r=%s' % (u['xfixed'], u.get('rfixed'))) if u.get('xfixed') else ((' radii ordered %s' % u['rorder']) if u.get('rorder') else ''))
     prover = Prover(t_inproc_ms=8000, use_external=(mode == 'LINE'), t_ext_s=u.get('t_ext', 12))
     def run(ctx):
-        I, dom, sim, V, rec = setup(ctx, N, mode)
+        I, dom, sim, V, rec = setup(ctx, N, mode, sep=u.get('sep'), xfixed=u.get('xfixed'), rfixed=u.get('rfixed'), rorder=u.get('rorder'))
         dtl = None
         if mode == 'LINE':
             dtl = dom.fresh('dt_last_done'); sim.set('dt_last_done', dtl); ctx.assume(dtl != 0)
@@ -56,7 +86,7 @@ def run_detect(u):
                     ctx.assume(z3.Or(*[V[(i, c)] != V[(j, c)] for c in ('vx', 'vy', 'vz')]))      # relative velocity non-zero (the code divides by |dv|^2)
         I.call('@reb_collision_search', [sim.ptr])
         return I, dom, sim, V, list(rec), dtl
-    ex = Explorer(run, max_paths=5000, timeout_ms=3000)
+    ex = Explorer(run, max_paths=5000, timeout_ms=3000) if mode != 'TREE' else LinExplorer(run, max_paths=u.get('max_paths', 20000))
     try: ex.explore()
     except BoundExceeded as e: rep.bound_exceeded.append(label + str(e))
     rep.queries += ex.nqueries; rep.solver_time += ex.qtime
@@ -68,14 +98,23 @@ def run_detect(u):
             vals = {'%s%d' % (c_, i_): float(model_value(model, t)) for (i_, c_), t in V.items()}
             if dtl is not None: vals['dt_last_done'] = float(model_value(model, dtl))
             ok, detail = native_detect(u, vals)
+            if not ok and mode in ('DIRECT', 'TREE'):
+                # solver models sit on the boundary 'approaching' (dx.dv == 0), which the native comparison treats as undecided: nudge the
+                # velocities slightly towards the centroid (turns == 0 into < 0, leaves clear-cut signs alone)
+                v2 = dict(vals)
+                for c_, w_ in (('x', 'vx'), ('y', 'vy'), ('z', 'vz')):
+                    cen = sum(vals['%s%d' % (c_, i_)] for i_ in range(N)) / N
+                    for i_ in range(N): v2['%s%d' % (w_, i_)] = vals['%s%d' % (w_, i_)] - 1e-3 * (vals['%s%d' % (c_, i_)] - cen)
+                ok2, detail2 = native_detect(u, v2)
+                if ok2: return True, 'C13:detect:%s' % mode, detail2, dict(unit=u, vals=v2)
             return ok, 'C13:detect:%s' % mode, detail, dict(unit=u, vals=vals)
         def d(i, j, c): return V[(i, c)] - V[(j, c)]
-        pairs = [(i, j) for i in range(N) for j in range(N) if i != j] if mode == 'DIRECT' else [(i, j) for i in range(N) for j in range(i + 1, N)]
+        pairs = [(i, j) for i in range(N) for j in range(N) if i != j] if mode in ('DIRECT', 'TREE') else [(i, j) for i in range(N) for j in range(i + 1, N)]
         for (i, j) in pairs:
             rs = V[(i, 'r')] + V[(j, 'r')]
             dx = [d(i, j, c) for c in ('x', 'y', 'z')]; dv = [d(i, j, c) for c in ('vx', 'vy', 'vz')]
             got = (i, j) in rec
-            if mode == 'DIRECT':
+            if mode in ('DIRECT', 'TREE'):
                 spec = z3.And(sum(a * a for a in dx) <= rs * rs, sum(a * b for a, b in zip(dx, dv)) <= 0)
                 ob.prove("pair (%d,%d) %s <=> overlapping and approaching" % (i, j, 'reported' if got else 'not reported'), spec if got else z3.Not(spec), pc, axioms=dom.axioms, on_sat=on_sat, domain='REAL')
             else:
@@ -91,7 +130,7 @@ def run_detect(u):
                     ob.prove("pair (%d,%d) not reported => for all instants of the last step the distance exceeds r_i + r_j" % (i, j), z3.Not(z3.And(tau >= 0, tau <= 1, dist2 <= rs * rs)), pc, axioms=dom.axioms, on_sat=on_sat, domain='REAL (universally quantified time)')
         n_rec = len(rec)
         ob.prove("no pair is reported twice per ordering", len(set(rec)) == n_rec, pc, domain='REAL')
-        if rep.paths % 7 == 1:
+        if rep.paths % 7 == 1 and mode != 'TREE':
             def wit(model):
                 vals = {'%s%d' % (c_, i_): float(model_value(model, t)) for (i_, c_), t in V.items()}
                 if dtl is not None: vals['dt_last_done'] = float(model_value(model, dtl))
@@ -117,9 +156,15 @@ def native_detect(u, vals):
         raw = bytes(bytearray(c.b)); got.append((int.from_bytes(raw[0:4], 'little', signed=True), int.from_bytes(raw[4:8], 'little', signed=True))); return 0
     cbf = cb_t(cb)
     try:
-        for i in range(N): ns.add(m=1.0)
-        for i in range(N):
-            for c in C6 + ['r', 'm']: ns.particle(i).set(c, vals['%s%d' % (c, i)])
+        if u['mode'] == 'TREE':
+            f = N_.lib.reb_simulation_configure_box; f.argtypes = [ctypes.c_void_p, ctypes.c_double, ctypes.c_int, ctypes.c_int, ctypes.c_int]; f.restype = None
+            f(ns.addr, 8.0, 1, 1, 1)
+            ns.set('collision', L.enumerators['REB_COLLISION_TREE'])
+            for i in range(N): ns.add(**{c: vals['%s%d' % (c, i)] for c in C6 + ['r', 'm']})       # real add: inserts into the tree in index order
+        else:
+            for i in range(N): ns.add(m=1.0)
+            for i in range(N):
+                for c in C6 + ['r', 'm']: ns.particle(i).set(c, vals['%s%d' % (c, i)])
         ns.set('collision', L.enumerators['REB_COLLISION_' + u['mode']])
         if 'dt_last_done' in vals: ns.set('dt_last_done', vals['dt_last_done'])
         ns.set('collision_resolve', ctypes.cast(cbf, ctypes.c_void_p).value)
@@ -131,7 +176,7 @@ def native_detect(u, vals):
                 if i == j or (u['mode'] == 'LINE' and j < i): continue
                 dx = [vals['%s%d' % (c, i)] - vals['%s%d' % (c, j)] for c in ('x', 'y', 'z')]; dv = [vals['%s%d' % (c, i)] - vals['%s%d' % (c, j)] for c in ('vx', 'vy', 'vz')]
                 rs = vals['r%d' % i] + vals['r%d' % j]
-                if u['mode'] == 'DIRECT':
+                if u['mode'] in ('DIRECT', 'TREE'):
                     a = sum(x * x for x in dx) - rs * rs; b = sum(x * y for x, y in zip(dx, dv))
                     sc = sum(x * x for x in dx) + rs * rs + 1e-300
                     if abs(a) < 1e-9 * sc or abs(b) < 1e-9 * (abs(b) + 1e-300): unsure.add((i, j))
@@ -242,15 +287,17 @@ def main():
     tier = os.environ.get('VERIF_TIER') or (sys.argv[1] if len(sys.argv) > 1 else 'quick')
     t0 = time.time()
     build.module(); build.layout(); build.build_native()
-    us = [dict(what='detect', mode='DIRECT', N=2), dict(what='detect', mode='LINE', N=2)]
+    us = [dict(what='detect', mode='DIRECT', N=2), dict(what='detect', mode='LINE', N=2), dict(what='detect', mode='TREE', N=2, sep=1, rorder=[0, 1]), dict(what='detect', mode='TREE', N=2, sep=1, rorder=[1, 0])]
+    # tree search with three particles: concrete tree structure and radii (the largest radius on the LAST index, sharing a deep cell), symbolic velocities
+    for xf, rf in ((['1', '-3', '13/10'], ['1/10', '1/20', '2/5']), (['1', '-3', '13/10'], ['2/5', '1/20', '1/10']), (['-1', '5/4', '1'], ['1/20', '1/5', '3/10'])): us.append(dict(what='detect', mode='TREE', N=3, xfixed=xf, rfixed=rf))
     if tier == 'thorough': us += [dict(what='detect', mode='DIRECT', N=3)]
     for pat in ('chain', 'pair+bystander', 'interleaved') + (('cluster',) if tier == 'thorough' else ()):
         for ks in (0, 1): us.append(dict(what='resolve', pattern=pat, keep_sorted=ks))
     rep = run_units(us, worker)
     code = finish(PID, tier, rep, t0,
-        bounds=dict(detection_particles='2' if tier == 'quick' else '2..3', resolution_particles=3, patterns=sorted({u.get('pattern') for u in us if u.get('pattern')}), search_modes=['DIRECT', 'LINE']),
+        bounds=dict(detection_particles='2' if tier == 'quick' else '2..3', resolution_particles=3, patterns=sorted({u.get('pattern') for u in us if u.get('pattern')}), search_modes=['DIRECT', 'LINE', 'TREE']),
         assumptions=['radii >= 0, masses > 0; LINE: dt_last_done != 0 and non-zero relative velocity', 'resolution units: concrete overlap geometry, symbolic masses and one velocity component; rand_r returns an arbitrary value in [0, RAND_MAX] (every shuffle explored)', 'real arithmetic'],
-        outside=['tree-based searches (TREE, LINETREE) and periodic images', 'hard-sphere resolver', 'clusters of more than 3 particles', 'MERCURIUS/TRACE encounter maps', 'rounding'],
+        outside=['LINETREE search, TREE search beyond 2 particles with symbolic positions / 3 particles with concrete positions and radii, periodic images', 'hard-sphere resolver', 'clusters of more than 3 particles', 'MERCURIUS/TRACE encounter maps', 'rounding'],
         domain_note='REAL with path forking; the shuffle order is a solver-chosen rand_r draw')
     sys.exit(code)
 
